@@ -20,13 +20,15 @@ def group_by_schedule(histories, sched_key, obs_key):
     return groups
 
 
-def first_divergence(observed, expected_seqs):
+def first_divergence(observed, expected_seqs, match=None):
     """Index of the first step at which `observed` is matched by no expected
     sequence that matched all earlier steps; None if some sequence matches
     completely."""
     alive = list(expected_seqs)
+    if match is None:
+        match = same
     for i, o in enumerate(observed):
-        nxt = [e for e in alive if i < len(e) and same(e[i], o)]
+        nxt = [e for e in alive if i < len(e) and match(e[i], o)]
         if not nxt:
             return i, [e[i] for e in alive if i < len(e)]
         alive = nxt
